@@ -6,7 +6,7 @@ import z3
 
 from .vals import (V, VNONE, vbool, vint, vstr, fresh, to_term, from_term, sort_of, coerce,
                    parse_type, fresh_name, deep_copy)
-from .state import State, Obligation, OutOfSubset, ContractDrift, feasible
+from .state import State, Obligation, OutOfSubset, UnknownName, ContractDrift, feasible
 from .engine import Engine, TRUE, FALSE, zand, zor, znot, MUTATORS
 
 MAX_PATHS = 4000
@@ -139,6 +139,8 @@ class Exec(Engine):
                     r = self.ev(e.args[0], st)
                     if len(r) == 1 and len(self._abn) == n_abn:
                         st, payload = r[0]
+                except UnknownName:
+                    raise           # at run time this is a NameError, not the exception being constructed
                 except OutOfSubset:
                     payload = None  # message text not modelled
             self.do_raise(st, name, stmt.lineno, payload)
@@ -689,7 +691,20 @@ class Exec(Engine):
             label.append(f"{parts[-1]}={'T' if val else 'F'}")
         return ",".join(label)
 
+    def check_defaults(self):
+        """Default values of the real signature are part of the behaviour callers see: the contract's `defaults` must state the same expressions."""
+        a = self.fn.args
+        pos = a.posonlyargs + a.args
+        for arg, d in list(zip(pos[len(pos) - len(a.defaults):], a.defaults)) + [(k, d) for k, d in zip(a.kwonlyargs, a.kw_defaults) if d is not None]:
+            if arg.arg in self.c.params:
+                want = self.c.defaults.get(arg.arg)
+                if want is None:
+                    continue   # the contract does not allow omitting this argument: every call site passes it explicitly (checked at binding)
+                if ast.unparse(ast.parse(want, mode="eval").body) != ast.unparse(d):
+                    raise ContractDrift(f"{self.name}: default of parameter {arg.arg} is {ast.unparse(d)} in the source, {want} in the contract")
+
     def verify(self):
+        self.check_defaults()
         all_obls = []
         self.n_paths = self.n_normal = 0
         base_name = self.name
@@ -767,7 +782,8 @@ class Exec(Engine):
                     self.oblige(s, FALSE, "raises", f"raises.unexpected[{exc}]/path{i}", self.fn.lineno,
                                 note=" & ".join(s.trace[-8:]))
                 else:
-                    ts = [t for _, t in self.spec_conj(allowed, self._with_old(s))]
+                    # one disjunct per allowed clause; a clause that is a conjunction stays ONE formula (spec_conj splits conjunctions)
+                    ts = [zand(*[t for _, t in self.spec_conj([cond], self._with_old(s))]) for cond in allowed]
                     self.oblige(s, zor(*ts), "raises", f"raises.only-when[{exc}]/path{i}", self.fn.lineno)
                 self.frame_obligations(s, i)
                 for e, t in self.spec_conj(c.ensures_on_raise, s):
